@@ -539,6 +539,53 @@ def _ev_filter(cond, sym, c):
     return ev(n, sym, c)
 
 
+def r13i(ck, prog):
+    """the counts reach the decision at full width: inside the kind decision no integer variable narrower than the histogram's
+    counters receives a value computed from them (a flag of 8 bits OR-ed with the counts is 0 whenever every count is a
+    multiple of 256, and a balanced input then has 'no residues')"""
+    _, fns = _detect_fns(prog)
+    BITS = {"char": 8, "signed char": 8, "unsigned char": 8, "uint8_t": 8, "int8_t": 8, "_Bool": 1, "short": 16, "unsigned short": 16,
+            "uint16_t": 16, "int16_t": 16, "int": 32, "unsigned int": 32, "uint32_t": 32, "int32_t": 32}
+    rec = prog.records.get("msa")
+    fty = next((f["ty"] for f in rec["fields"] if f["name"] == "letter_freq"), "") if rec else ""
+    import re as _re
+    base = _re.sub(r"\s*\[\d+\]$", "", fty).replace("const ", "").strip()
+    wcount = BITS.get(base, 64)
+    n = 0
+    for F in fns:
+        for a in F.body.walk():
+            tgt = rhs = None
+            if (a.k == "BinaryOperator" and a.d["op"] == "=") or a.k == "CompoundAssignOperator":
+                tgt, rhs = a.kids[0].strip(), a.kids[1]
+            elif a.role == "declinit" and a.decl is not None:
+                tgt, rhs = None, a
+            if rhs is None or not any(m.k == "MemberExpr" and m.d.get("field") == "letter_freq" for m in rhs.walk()):
+                continue
+            def boolean_only(m_):
+                x_ = m_
+                while x_ is not None and x_ is not rhs:
+                    x_ = x_.parent
+                    if x_ is not None and ((x_.k == "BinaryOperator" and x_.d["op"] in ("==", "!=", "<", ">", "<=", ">=", "&&", "||")) or
+                                           (x_.k == "UnaryOperator" and x_.d["op"] == "!")):
+                        return True
+                return False
+            if all(boolean_only(m_) for m_ in rhs.walk() if m_.k == "MemberExpr" and m_.d.get("field") == "letter_freq"):
+                continue            # a truth value (count != 0), not a count
+            ty = (a.decl.get("ty") if tgt is None else tgt.ty) or ""
+            name = a.decl["name"] if tgt is None else tgt.text()
+            ty = ty.replace("const ", "").strip()
+            n += 1
+            w = BITS.get(ty)
+            ck.inst("R13i", site(prog, a, name), "%s: %s (%s) receives a value computed from the letter counts" % (F.name, name, ty), prog.config)
+            # a product with a floating-point weight is a score, not a count
+            if w is not None and w < wcount and not any(x.ty in ("double", "float") for x in rhs.walk()):
+                ck.violation("R13i", "R13i/%s/%s" % (F.name, _re.sub(r"\W+", "", name)), site(prog, a, name),
+                             "%s keeps a value computed from the %d-bit letter counts in the %d-bit %s %s: counts that are multiples of %d "
+                             "look like 0, and whether residues were seen / which kind wins then depends on the exact counts, not on the "
+                             "composition" % (F.name, wcount, w, ty, name, 2 ** w), prog.config)
+    ck.floor("R13i", n, 1, "values computed from the letter counts in the kind decision")
+
+
 def r13g(ck, prog):
     """every residue letter that is read feeds the histogram the kind is decided from: an increment of a letter_freq element
     that is indexed by an input character is executed for every letter the character loop sees - a condition it sits under
@@ -638,6 +685,7 @@ def r13g(ck, prog):
 def run(ck, progs):
     describe(ck)
     ck.rule("R13h", "after a merge of input files the kind is decided again from the sum of both histograms (= R04c): merge_msa adds the new file's counts and re-runs the detection")
+    ck.rule("R13i", "inside the kind decision no integer variable narrower than the histogram's counters receives a value computed from them")
     ck.rule("R13g", "every increment of the histogram by an input character is executed for all 52 letters (conditions evaluated per byte) and under no budget that the counting itself uses up")
     for cfg, prog in progs.items():
         ck.attempt(r13a, ck, prog)
@@ -645,6 +693,7 @@ def run(ck, progs):
         ck.attempt(r13e, ck, prog)
         ck.attempt(r13f, ck, prog)
         ck.attempt(r13g, ck, prog)
+        ck.attempt(r13i, ck, prog)
         from . import c04 as _c04
         ck.borrow(_c04.r04c, prog, "R13h", ("R04c",))
         from . import c04
